@@ -458,6 +458,32 @@ def run_case(case):
                             fail(kind="encoder_output_decodes_differently", **ctx)
                     except E.DecodeError as e:
                         fail(kind="encoder_output_not_decodable", err=str(e), **ctx)
+        # two length-prefixed streams one after the other into ONE output (repetition levels, then definition levels of a v1 page): the
+        # second encoder call starts at a non-zero position
+        for w1, w2 in ((1, 3), (3, 1), (8, 2)):
+            for n in (1, 9, 100):
+                from fastparquet import cencoding as CE2
+                v1 = np.array(_pattern("rand", w1, n, rng), dtype=np.int32)
+                v2 = np.array(_pattern("rand", w2, n, rng), dtype=np.int32)
+                out = Out(n * 8 + 64, 1)
+                o = out.io()
+                CE2.encode_rle_bp(v1, w1, o, 1)
+                mid = o.tell()
+                CE2.encode_rle_bp(v2, w2, o, 1)
+                produced = bytes(out.view[:o.tell()])
+                point("encode_rle_bp", w1, w2, _cc(n), "two streams on one output")
+                ctx = dict(func="encode_rle_bp", width=[w1, w2], count=n, withlength=1, second_stream_starts_at=mid)
+                try:
+                    l1 = int.from_bytes(produced[:4], "little")
+                    dec1, _, _ = E.hybrid_decode(produced[:4 + l1], w1, n, pos=4)
+                    l2 = int.from_bytes(produced[4 + l1:8 + l1], "little")
+                    if 8 + l1 + l2 != len(produced):
+                        fail(kind="values_differ", what="length prefix of the second stream", **ctx)
+                    dec2, _, _ = E.hybrid_decode(produced[:8 + l1 + l2], w2, n, pos=8 + l1)
+                    if dec1 != v1.tolist() or dec2 != v2.tolist():
+                        fail(kind="encoder_output_decodes_differently", which=[dec1 != v1.tolist(), dec2 != v2.tolist()], **ctx)
+                except (E.DecodeError, IndexError, ValueError) as e:
+                    fail(kind="encoder_output_not_decodable", err=str(e)[:80], **ctx)
     elif fn == "write_bitpacked1":
         # documented as "implementation of np.packbits with output array. Input is int8 array"
         for n in (0, 1, 7, 8, 9, 16, 17, 64, 65):
